@@ -18,9 +18,13 @@ static inline int QDataStream_write_ipv6(QDataStream *s, const Q_IPV6ADDR *a, in
   wlog_put(s, a->c[8]); wlog_put(s, a->c[9]); wlog_put(s, a->c[10]); wlog_put(s, a->c[11]); wlog_put(s, a->c[12]); wlog_put(s, a->c[13]); wlog_put(s, a->c[14]); wlog_put(s, a->c[15]); return 16; }
 /* the stream appends to a write log (or starts one) and the log is not absurdly large */
 #define WSTREAM_OK(s) ((s)->wba != 0 && (s)->ba == (s)->wba && (s)->pos == (s)->wba->n && 0 <= (s)->wba->n && (s)->wba->n <= 32 * QBA_MAX && ((s)->wba->wlog || (s)->wba->n == 0) && !(s)->wba->patched)
+#ifdef QBA_OWNED
 #define WSTREAM_FRAME stream->pos, stream->wba->n, stream->wba->wlog, stream->wba->w_set, stream->wba->w_val, stream->wba->owned, __CPROVER_object_whole(stream->wba->own)
+#else
+#define WSTREAM_FRAME stream->pos, stream->wba->n, stream->wba->wlog, stream->wba->w_set, stream->wba->w_val
+#endif
 /* j = offset of the witness position inside the bytes appended by this call (valid when 0 <= j < appended) */
-#define W_J ((long)g_w - (long)__CPROVER_old(stream->wba->n))
+#define W_J (g_w - __CPROVER_old(stream->wba->n))
 #define W_BYTE ((quint32)(unsigned char)stream->wba->w_val)
 #define BE16(v, k) ((((quint32)(v)) >> (8 * (1 - (k)))) & 0xffu)
 #define BE32(v, k) ((((quint32)(v)) >> (8 * (3 - (k)))) & 0xffu)
